@@ -355,19 +355,22 @@ impl Scope {
         }
     }
 
-    /// Escape enclosing function environment's `this`.
-    pub fn escape_this_in_enclosing_function_scope(&self) {
+    /// Escape the `this` of the function environment that encloses `arrows` nested arrow functions.
+    ///
+    /// An arrow function has no `this` of its own: seen from the innermost of `arrows` directly
+    /// nested arrow functions, `this` belongs to the function scope reached after leaving all of them.
+    pub fn escape_this_in_enclosing_function_scope(&self, arrows: usize) {
         let mut current = self;
-        let mut crossed_function_border = false;
+        let mut crossed_function_borders = 0;
 
         loop {
-            if crossed_function_border && current.is_function() {
+            if crossed_function_borders == arrows && current.is_function() {
                 current.inner.this_escaped.set(true);
                 return;
             }
             if let Some(outer) = &current.inner.outer {
                 if current.is_function() {
-                    crossed_function_border = true;
+                    crossed_function_borders += 1;
                 }
                 current = outer;
             } else {
